@@ -141,6 +141,8 @@ type Recv struct {
 	P        *mw.Packet
 	At       time.Time
 	consumed bool
+	// AliasResolved: P.Topic was empty on the wire and has been filled in from the connection's alias table
+	AliasResolved bool
 }
 
 // Client is a scripted MQTT client.
@@ -163,6 +165,9 @@ type Client struct {
 	SentRaw  int // bytes written
 	RecvRaw  int // bytes read (sum of Raw lengths)
 	done     chan struct{}
+
+	resolveAliases bool
+	aliases        map[uint16]string
 }
 
 // NewClient wraps a connection; the reader goroutine starts immediately.
@@ -192,7 +197,18 @@ func (c *Client) reader() {
 			onPacket(p)
 		}
 		c.mu.Lock()
-		c.log = append(c.log, &Recv{P: p, At: time.Now()})
+		resolved := false
+		if c.resolveAliases && p.Type == mw.PUBLISH && p.Props != nil && p.Props.TopicAlias != nil {
+			if c.aliases == nil {
+				c.aliases = map[uint16]string{}
+			}
+			if p.Topic != "" {
+				c.aliases[*p.Props.TopicAlias] = p.Topic
+			} else if t, ok := c.aliases[*p.Props.TopicAlias]; ok {
+				p.Topic, resolved = t, true
+			}
+		}
+		c.log = append(c.log, &Recv{P: p, At: time.Now(), AliasResolved: resolved})
 		c.RecvRaw += len(p.Raw)
 		auto := c.AutoAck
 		c.cond.Broadcast()
@@ -368,6 +384,9 @@ type ConnectOpts struct {
 	Username   *string
 	Password   []byte
 	AutoAck    bool
+	// ResolveAliases: the client keeps the topic alias table of the connection as a real client does and fills in
+	// the topic name of a PUBLISH that arrives with an alias only (Recv.AliasResolved); an unknown alias stays empty
+	ResolveAliases bool
 }
 
 // DefaultWait is the generous bound used for "the broker answers" waits.
@@ -383,6 +402,7 @@ func (b *Broker) Connect(o ConnectOpts) (*Client, *mw.Packet, error) {
 	c := NewClient(conn, o.ID, o.V)
 	c.mu.Lock()
 	c.AutoAck = o.AutoAck
+	c.resolveAliases = o.ResolveAliases
 	c.mu.Unlock()
 	name, lvl := mw.ProtoFor(o.V)
 	p := &mw.Packet{Type: mw.CONNECT, ProtoName: name, ProtoLevel: lvl, CleanStart: o.CleanStart, KeepAlive: o.KeepAlive,
